@@ -108,9 +108,10 @@ func c08History(g *Gen, code string, targets []*big.Int) {
 	firstCopy := cloneInts(first)
 	if st1 == "ok" && len(first) > 0 {
 		// extend the returned chain by a small and by a large new value and ask again
+		// (one in-place append only: a second one into the same spare slot would undo the first)
 		ext := append(first, big.NewInt(3))
 		run(obj, ext)
-		ext2 := append(first, new(big.Int).Add(first[len(first)-1], big.NewInt(1)))
+		ext2 := append(append(addchain.Chain{}, firstCopy...), new(big.Int).Add(firstCopy[len(firstCopy)-1], big.NewInt(1)))
 		run(obj, ext2)
 	}
 	// reuse the caller's own integers for another request
@@ -138,7 +139,7 @@ func c08History(g *Gen, code string, targets []*big.Int) {
 func genC08(g *Gen) {
 	all := append(append([]string{}, c08Log...), c08Small...)
 	for _, code := range all {
-		for _, ts := range [][]int64{{5}, {1}, {2}, {3, 17}, {1, 5}, {5, 9}, {30, 3, 18}, {7, 3}, {13, 4, 13}, {11}, {23, 11}} {
+		for _, ts := range [][]int64{{1}, {5}, {2}, {3, 17}, {1, 5}, {5, 9}, {30, 3, 18}, {7, 3}, {13, 4, 13}, {11}, {23, 11}} {
 			c08History(g, code, ints(ts...))
 		}
 		if g.notesViolation() {
